@@ -137,6 +137,7 @@ func main() {
 			}
 		}()
 		spiffeScenario(*repo, &c)
+		gcScenario(*repo, &c)
 		run(*repo, &c, iter)
 	}()
 	w.Emit(c)
@@ -248,6 +249,81 @@ func spiffeScenario(repo string, c *Case) {
 			k8s.VerifSync(lbc, cm(2)) // last of the batch: reloads are enabled again and applied
 			c.Ops["spiffe-batch"]++
 			time.Sleep(300 * time.Microsecond)
+		}
+	}()
+	wg.Wait()
+}
+
+// gcScenario: the GlobalConfiguration informer delivers its production UpdateFunc -- as a resync does
+// (old = cur = the cached object), as a relist does (the store is given an equal, freshly decoded object, then
+// old = the previous cached object, cur = the new one) and, every 40 rounds, as a watch update does -- while the production sync of the
+// globalConfiguration task takes the cached object out of the store and has it validated.  The object has a
+// listener on a forbidden port, so the validator has something to drop.
+func gcScenario(repo string, c *Case) {
+	logger := slog.New(slog.NewTextHandler(io.Discard, &slog.HandlerOptions{Level: slog.LevelError}))
+	ctx := nl.ContextWithLogger(context.Background(), logger)
+	cnf, err := newConfigurator(ctx, repo)
+	if err != nil {
+		c.Obs["gc_error"] = err.Error()
+		return
+	}
+	pod := &api_v1.Pod{ObjectMeta: meta_v1.ObjectMeta{Name: "verif-pod", Namespace: ctrlNS}}
+	lbc := k8s.NewLoadBalancerController(k8s.NewLoadBalancerControllerInput{
+		KubeClient: k8sfake.NewSimpleClientset(), ConfClient: conffake.NewSimpleClientset(), Recorder: &record.FakeRecorder{}, ResyncPeriod: 30 * time.Second,
+		LoggerContext: ctx, Namespace: []string{""}, SecretNamespace: []string{""}, NginxConfigurator: cnf,
+		IsNginxPlus: true, IngressClass: class, ControllerNamespace: ctrlNS, Pod: pod, AreCustomResourcesEnabled: true,
+		GlobalConfiguration:          ctrlNS + "/gc",
+		MetricsCollector:             collectors.NewControllerFakeCollector(),
+		GlobalConfigurationValidator: validation.NewGlobalConfigurationValidator(map[int]bool{9113: true}),
+		TransportServerValidator:     validation.NewTransportServerValidator(false, false, true),
+		VirtualServerValidator:       validation.NewVirtualServerValidator(validation.IsPlus(true)),
+	})
+	store := k8s.VerifGlobalConfigurationStore(lbc)
+	h := k8s.VerifGlobalConfigurationHandlers(lbc)
+	mk := func(gen int) *conf_v1.GlobalConfiguration {
+		return &conf_v1.GlobalConfiguration{ObjectMeta: meta_v1.ObjectMeta{Name: "gc", Namespace: ctrlNS, Generation: int64(gen), UID: "gc-uid"},
+			Spec: conf_v1.GlobalConfigurationSpec{Listeners: []conf_v1.Listener{
+				{Name: "dns-udp", Port: 5353, Protocol: "UDP"},
+				{Name: fmt.Sprintf("tcp-%d", 7000+gen%50), Port: 7000 + gen%50, Protocol: "TCP"},
+				{Name: "forbidden", Port: 9113, Protocol: "TCP"}, // dropped by the validator
+			}}}
+	}
+	cached := mk(0)
+	store.Add(cached)
+	var wg sync.WaitGroup
+	var stop atomic.Bool
+	wg.Add(2)
+	go func() { // the informer goroutine of the GlobalConfiguration
+		defer wg.Done()
+		defer func() { recover() }()
+		for gen := 1; !stop.Load(); gen++ {
+			h.UpdateFunc(cached, cached) // resync: same pointer twice (reflect.DeepEqual stops at once)
+			// relist (watch expired, the reflector lists again): the store is given a freshly decoded object
+			// that equals the cached one, metadata included, so reflect.DeepEqual(old, cur) goes all the way
+			// through both objects -- old is the object the worker may be validating right now
+			n := mk(gen / 40)
+			old := cached
+			store.Update(n)
+			cached = n
+			h.UpdateFunc(old, n)
+			c.Observed["gc-informer"]++
+			time.Sleep(150 * time.Microsecond)
+		}
+	}()
+	go func() { // the control-loop worker
+		defer wg.Done()
+		defer stop.Store(true)
+		defer func() {
+			if r := recover(); r != nil {
+				c.Obs["gc_error"] = fmt.Sprintf("panic: %v", r)
+			}
+		}()
+		task := &conf_v1.GlobalConfiguration{ObjectMeta: meta_v1.ObjectMeta{Name: "gc", Namespace: ctrlNS}}
+		for i := 0; i < 300; i++ {
+			k8s.VerifSync(lbc, task)
+			k8s.VerifDrainQueue(lbc)
+			c.Ops["gc-sync"]++
+			time.Sleep(200 * time.Microsecond)
 		}
 	}()
 	wg.Wait()
